@@ -36,6 +36,8 @@ class Ctx:
             kw.update(cadata=E.ca_data(ca), server_name=server_name)
             if not verify:
                 kw["verify_mode"] = ssl.CERT_NONE
+            elif verify == "optional":
+                kw["verify_mode"] = ssl.CERT_OPTIONAL  # for a client: the same as CERT_REQUIRED (a server always presents a certificate)
         else:
             kw["max_early_data"] = 0xFFFFFFFF
         self.ctx = T.Context(**kw)
